@@ -514,11 +514,12 @@ class ResultQuantifier(CanBehaveLikeAVariable[T], ABC):
         A variable without a given domain ranges over the instances of its type that exist when the query is
         evaluated, not over the ones that existed when it was evaluated for the first time.
         """
+        # the nodes as they are now: branches of a rule may have been written after an earlier evaluation
         variables = [
             variable
             for selected_or_variable in self._all_variable_instances_
             for variable in selected_or_variable._all_variable_instances_
-        ]
+        ] + [node for node in self._descendants_ if isinstance(node, Variable)]
         for variable in variables:
             # not getattr: variables turn unknown attribute names into symbolic attributes
             domain_source = vars(variable).get("_domain_source_")
